@@ -221,7 +221,7 @@ pub fn exec_op(ctx: &StoreCtx, line: &str) -> String {
     let is_zip = ctx.kind == "zip";
     guarded(|| {
         // zip: reads go through an archive built from the shadow state
-        let zv = if is_zip && matches!(verb, "get" | "getp" | "size" | "sizep" | "list" | "listp" | "listd") { Some(zip_view(s)) } else { None };
+        let zv = if is_zip && matches!(verb, "get" | "getp" | "getpm" | "size" | "sizep" | "list" | "listp" | "listd") { Some(zip_view(s)) } else { None };
         match verb {
             "set" => e(s.set(&key("k"), unhex(&m["v"]).into())),
             "setp" => {
@@ -250,6 +250,15 @@ pub fn exec_op(ctx: &StoreCtx, line: &str) -> String {
                 match r {
                     Ok(Some(bs)) => format!("some {}", bs.iter().map(|b| hex(b)).collect::<Vec<_>>().join(";")),
                     Ok(None) => "none".into(),
+                    Err(_) => "err".into(),
+                }
+            }
+            "getpm" => {
+                // the MULTI-key ranged get (`get_partial_values`, batched by key): kr=<key>@<range>;...  one answer per request
+                let krs: Vec<zarrs::storage::StoreKeyRange> = m["kr"].split(';').map(|t| { let (k, r) = t.split_once('@').unwrap(); zarrs::storage::StoreKeyRange::new(StoreKey::new(k).unwrap(), parse_range(r)) }).collect();
+                let r = match &zv { Some(z) => z.get_partial_values(&krs), None => s.get_partial_values(&krs) };
+                match r {
+                    Ok(vs) => format!("multi {}", vs.iter().map(|v| match v { Some(b) => format!("some:{}", hex(b)), None => "none".to_string() }).collect::<Vec<_>>().join(";")),
                     Err(_) => "err".into(),
                 }
             }
@@ -414,6 +423,22 @@ pub fn gen_case_univ(rng: &mut Rng, kind: &str, nops: usize, keys: &[&str], pref
                 } else { format!("c08 op size k={}", k) }
             }
             8 => format!("c08 op get k={}", k),
+            9 if rng.chance(1, 2) => {
+                // multi-key ranged get: 2-5 requests over present AND absent keys, runs of requests for one key, in-bounds non-empty ranges
+                let n = rng.range(2, 5);
+                let mut parts: Vec<String> = vec![];
+                let mut kk = keys[rng.below(nokeys as u64) as usize];
+                for _ in 0..n {
+                    if rng.chance(2, 3) { kk = keys[rng.below(nokeys as u64) as usize]; }
+                    let c = *lens.get(kk).unwrap_or(&0);
+                    let r = if c == 0 { if rng.chance(1, 2) { "f0:1".to_string() } else { "s1".to_string() } } else {
+                        match rng.below(3) { 0 => { let o = rng.below(c); format!("f{}:{}", o, rng.range(1, c - o)) } 1 => format!("f{}:", rng.below(c)), _ => format!("s{}", rng.range(1, c)) } };
+                    // (a present key whose value is empty has no in-bounds non-empty range: skip it)
+                    if c == 0 && lens.contains_key(kk) { continue; }
+                    parts.push(format!("{}@{}", kk, r));
+                }
+                if parts.is_empty() { format!("c08 op get k={}", k) } else { format!("c08 op getpm kr={}", parts.join(";")) }
+            }
             9 | 10 | 11 => {
                 let n = rng.range(1, 3);
                 let mut rs: Vec<String> = (0..n).map(|_| gen_range(rng, cur, true)).collect();
